@@ -29,7 +29,8 @@ type Obl struct {
 	Pos    string
 	script *Script
 	// results
-	Res SolverResult
+	Res     SolverResult
+	Retried bool
 }
 
 // LV is a statically tracked lvalue (pointer target).
@@ -986,7 +987,13 @@ func (u *Unit) execBody(fn *ssa.Function, st0 *State, top bool) (*State, []Term)
 	for _, r := range rets {
 		conds = append(conds, r.st.reach)
 	}
-	out.reach = u.s.define("ret_"+fn.Name(), SBool, or(conds...))
+	if top {
+		rc := u.s.fresh("ret_"+fn.Name(), SBool)
+		u.s.assumeGlobal(eq(rc, or(conds...)))
+		out.reach = rc
+	} else {
+		out.reach = u.s.define("ret_"+fn.Name(), SBool, or(conds...))
+	}
 	names := map[string]bool{}
 	for _, r := range rets {
 		for k := range r.st.heaps {
@@ -1011,7 +1018,11 @@ func (u *Unit) execBody(fn *ssa.Function, st0 *State, top bool) (*State, []Term)
 			return t
 		}
 		c := u.s.fresh(name, srt)
-		u.s.assume(eq(c, t))
+		if top {
+			u.s.assumeGlobal(eq(c, t)) // the merged exit state is used by the frame obligations of every slice
+		} else {
+			u.s.assume(eq(c, t))
+		}
 		return c
 	}
 	var ns []string
